@@ -130,3 +130,30 @@ func VerifC09ConcurrentDuplicates() {
 	vrt.Assert("C09.concurrent.duplicates-accepted-at-most-once", !(err1 == nil && err2 == nil))
 	vrt.Assert("C09.concurrent.one-of-them-is-accepted", err1 == nil || err2 == nil)
 }
+
+// verif:harness props=C09 tier=quick native=yes weight=30
+// verif:bounds a nonce cache that already holds M = 10 000 other LIVE nonces (concrete, same far expiry) plus the entry (n, e) with e arbitrary; one more seenOnce call for a fresh nonce or for n itself at an arbitrary instant: the entry n survives while now < e and blocks its nonce ("no matter how many other requests happen in between", up to M)
+func VerifC09NonceCacheUnderLoad() {
+	now := vrt.Time("now")
+	c := newNonceCache(func() time.Time { return now })
+	far := time.Unix(4000000000, 0)
+	vrt.Assume(now.Before(far))
+	const m = 10000
+	digits := "0123456789"
+	for i := 0; i < m; i++ {
+		k := "o" + string([]byte{digits[i/10000%10], digits[i/1000%10], digits[i/100%10], digits[i/10%10], digits[i%10]})
+		c.m[k] = far
+	}
+	e := vrt.Time("exp-n")
+	c.m["n"] = e
+	which := []string{"n", "fresh"}[vrt.Choose("presented", 2)]
+	ok := c.seenOnce(which, far)
+	if now.Before(e) {
+		vrt.Cover("load.entry-live")
+		if which == "n" {
+			vrt.Assert("C09.load.live-entry-blocks-its-nonce-whatever-the-cache-size", !ok)
+		}
+		got, present := c.m["n"]
+		vrt.Assert("C09.load.live-entry-survives-whatever-the-cache-size", present && got.Equal(e))
+	}
+}
